@@ -38,8 +38,7 @@ class C17(PropertyCheck):
     assumptions = ["A-codec: strings are given in Shift-JIS encoded form; encoding_rs decodes/encodes the generated alphabet losslessly",
                    "the label AnimClipNameTable is reserved by the format: a set carrying it makes the table lookup depend on the hash "
                    "state and is outside wf_aset",
-                   "bytes level: BinArchive serialize -> from_bytes preserves what the reader observes (premise bytes_round_trip of "
-                   "C17_round_trip_bytes; to be discharged by C01)"]
+                   "image (data + strings + labels + 35) below 2^32 (aset_fits)"]
 
     def generate(self, rng, tier):
         cases = []
@@ -210,7 +209,24 @@ TB = ("Trusted: Coq 8.16.1 kernel (vm_compute, no native_compute), no axioms (Pr
       "ExtrOcamlBasic extraction + hand-written OCaml driver, the Rust harness and Python generators/oracles. ")
 
 MANIFEST = dict(
-    text="(filled in below)",
-    note=TB,
-    technique="Coq proof + extracted-model differential check",
+    text="Theorems about an executable Gallina model of ASetFile::from_archive / ASetFile::serialize (transcribed call by call over the "
+         "bin-archive stream model). For every value with 257 table entries and 257 entries per set (label + 256 slots), any meta, any "
+         "present/absent pattern: the writer builds exactly the archive of the cell list header ++ 257 string cells ++ per set [main flags "
+         "word, per non-empty group its flags word and one string cell per present slot] with AnimClipNameTable at 12 and each set label "
+         "on the first byte of its record (C17_writer_builds_cells, C17_write_set); the reader returns the value on every archive showing "
+         "that layout and those labels (C17_reader_inverts_layout, C17_round_trip_archive) - bit lemmas testbit(compile_flags bs) j = "
+         "nth j bs for the 32-bit group words and the 8-bit main mask. Space: a set record is 4*(1 + #non-empty groups + #present slots) "
+         "bytes = what the writer allocates, the data region is 12 + 4*257 + the sum over sets, an all-absent group contributes no cell, an "
+         "all-absent set costs 4 bytes (C17_space_set, C17_space_file, C17_absent_group_omitted, C17_space_empty_set). Byte level "
+         "(C17_round_trip_final, no premise): for NUL-free strings (empty allowed), no set labelled AnimClipNameTable, image < 2^32, in "
+         "both arithmetic modes serialize succeeds, parse(bytes) returns the same value and re-serializing whatever is re-read gives the "
+         "same bytes; proved from the bin-archive round trip C01 via Proofs/RecsBinBridge.v (C17_round_trip states the same relative to "
+         "that round trip as an explicit premise). Model tied to /repo on every run: value -> serialize -> parse -> re-serialize compared "
+         "line by line with the extracted model, plus an independent Python decoder of the image and the space formula as oracle.",
+    note=TB + "Strings are Shift-JIS encoded byte lists (A-codec: encoding_rs lossless on the generated alphabet is assumed, exercised by "
+              "the harness). A set carrying the label AnimClipNameTable is outside the byte-level theorem (the table lookup then depends on "
+              "the hash order; the correspondence compares only the outcome class there). HashMap iteration order is modelled as an "
+              "arbitrary list order: the reader theorem holds for every order (obs_equal).",
+    technique="Coq proof (cell-list simulation of the writer, layout inversion by the reader, bit lemmas for the flag words; byte level from the "
+              "bin-archive round trip C01) + extracted-model differential check + independent decoder/space-formula oracle",
     ref="DESIGN.md section 6 (C17)")
